@@ -15,9 +15,31 @@ PER_PROP = {
             'Lean lemma tsize_append over the List Char model of str ties the fold of token sizes to (line, column) in the concatenated text'],
 }
 
+def _qual(t):
+    owner, name = t[0], t[1]
+    return (f'{owner}.{name}' if owner else name) + ('.setter' if len(t) > 2 and t[2] == 'setter' else '')
+
+def assumed_contracts(u):
+    """contracts of the unit's spec file that are NOT verified by this unit: callers use them as given. Split into those proved by another unit
+    (against the real body, possibly under a differently shaped but corresponding contract) and those proved nowhere (virtual methods, abstract store, library)."""
+    import os, re
+    from . import unit as U_
+    try:
+        import units as ALL
+        spec = open(os.path.join(os.path.dirname(os.path.dirname(os.path.abspath(__file__))), 'contracts', u.spec)).read()
+    except Exception: return None
+    names = re.findall(r"@contract\('([^']+)'\)", spec)
+    mine = {_qual(t) for t in getattr(u, 'targets', [])}
+    elsewhere = {_qual(t) for v in ALL.UNITS if v is not u for t in getattr(v, 'targets', [])}
+    rest = [n for n in dict.fromkeys(names) if n not in mine]
+    return [n for n in rest if n in elsewhere], [n for n in rest if n not in elsewhere]
+
 def assumptions_for(prop, units):
     trusted = []
     for u in units:
+        ac = assumed_contracts(u) if hasattr(u, 'targets') else None
+        if ac and (ac[0] or ac[1]):
+            trusted.append(f'unit {u.name}: contracts used as given here - verified against the real body by another unit: {", ".join(ac[0]) or "none"}; verified by no unit (assumed): {", ".join(ac[1]) or "none"}')
         if u.stubs: trusted.append(f'unit {u.name}: declaration-only stubs {u.stubs} stand for classes outside the verified files (fields/types only, no behaviour)')
         if u.note: trusted.append(f'unit {u.name}: {u.note}')
         if getattr(u, 'builtins', None):
